@@ -25,7 +25,7 @@ from collections import deque
 import vlib, graphwalk
 
 PID = "X13"
-TLC_WORKERS = 4
+TLC_WORKERS = 1   # the flow model is small (< 30k states); one worker is as fast and does not suffer from a loaded machine
 TABLES = "DRXAWKML"
 FLOW_ACTIONS = ("Setup", "FetchID", "DiscoverIdP", "Exchange", "DiscoverMCP", "JwtBearer", "Install", "Finish", "NextRound")
 FLOW_RESULTS = ("ok", "idtoken", "idpmeta", "exchange", "mcpmeta", "jwt")
